@@ -188,3 +188,48 @@ def resolve_name(stmts_before: list, name: str, before_line: int = 10**9):
                 if best is None or n.lineno > best.lineno:
                     best = n
     return best.value if best is not None else None
+
+
+def follow_method_returns(ctx, ret: ast.Return, depth: int = 0) -> list:
+    """the return statements that decide the value of `return self.m(a, b)` when m is a method of the context that the
+    pinned tree does not have (a helper extracted by a refactoring): m's own returns with its parameters replaced by the
+    arguments; otherwise [ret]"""
+    import copy
+
+    from ..core import canon
+
+    v = ret.value
+    if depth > 2 or not (isinstance(v, ast.Call) and isinstance(v.func, ast.Attribute) and isinstance(v.func.value, ast.Name)
+                         and v.func.value.id == "self" and not v.keywords):
+        return [ret]
+    dotted = "core.Wtp." + v.func.attr
+    if not ctx.index.has_func(dotted) or ("Wtp." + v.func.attr) in canon.reference().get("core", {}).get("functions", {}):
+        return [ret]
+    m = ctx.index.func(dotted)
+    params = [a.arg for a in m.args.args[1:]]
+    if len(params) != len(v.args):
+        return [ret]
+    mapping = dict(zip(params, v.args))
+
+    class T(ast.NodeTransformer):
+        def visit_Name(self, n):
+            if isinstance(n.ctx, ast.Load) and n.id in mapping:
+                return copy.deepcopy(mapping[n.id])
+            return n
+
+    # single-assignment locals of the helper (`content = args[0]`) are read through
+    counts: dict = {}
+    for n in walk_no_nested(m):
+        if isinstance(n, ast.Name) and isinstance(n.ctx, ast.Store):
+            counts[n.id] = counts.get(n.id, 0) + 1
+    for n in m.body:
+        if isinstance(n, ast.Assign) and len(n.targets) == 1 and isinstance(n.targets[0], ast.Name) and counts.get(n.targets[0].id) == 1 \
+                and n.targets[0].id not in mapping:
+            mapping[n.targets[0].id] = T().visit(copy.deepcopy(n.value))
+    out = []
+    for r in walk_no_nested(m):
+        if isinstance(r, ast.Return) and r.value is not None:
+            r2 = T().visit(copy.deepcopy(r))
+            ast.fix_missing_locations(r2)
+            out.extend(follow_method_returns(ctx, r2, depth + 1))
+    return out or [ret]
